@@ -15,7 +15,9 @@
       C17_float_bilinear_range: result ∈ [min - 1, max] of the pixels read)
     * a single tap of weight 1 (the four corner cases) returns the pixel exactly                      (C17_float_single_tap_exact)
     * at integer coordinates inside the view (frac = 0) the result is the source pixel itself          (C17_float_integer_points)
-  NOT provable, and FALSE on the real code: `lo ≤ result`.  `C17_float_truncates_below_min_witness`: with the genuine
+    * since fix 056e54b (`cast_channel_fn` rounds to nearest, `cround`): lo ≤ result ≤ hi                (C17_float_bilinear_rounded_between,
+      C17_float_bilinear_rounded_range: result ∈ [min, max] of the pixels read; C17_float_rounded_witness)
+  For the PRE-FIX truncating cast `lo ≤ result` was not provable, and FALSE on the real code.  `C17_float_truncates_below_min_witness`: with the genuine
   binary32 rounding (kernel-evaluated) a CONSTANT image of 255 sampled at (6.52790165f, 5.04227161f) gives
   mp = 254.99998474..., result 254 -- exactly what `sample(bilinear_sampler, …)` of /repo returns (probe: 12.7 % of random
   off-grid points).  The exact-arithmetic theorems `C17_bilinear_value_between` / `C17_trunc_between` of Props/C17.lean do not
@@ -92,6 +94,42 @@ theorem C17_float_bilinear_range (R : FloatSpec) (he : R.eps ≤ 1 / 2 ^ 24) (w 
   have := C17_float_bilinear_between R he w h p0x p0y src fx fy hx0 hx1 hy0 hy1 mn mx hmn hle hmx
     (fun t ht => ⟨hmin t ht, hmax t ht⟩)
   exact ⟨this.2.2.1, this.2.2.2⟩
+
+/-- THE value theorem for the CURRENT code (fix 056e54b, `cast_channel_fn` rounds to nearest): the sampled value after the
+    cast lies in [lo, hi] -- the convexity clause of the property holds for the float evaluation, relative to FloatSpec -/
+theorem C17_float_bilinear_rounded_between (R : FloatSpec) (he : R.eps ≤ 1 / 2 ^ 24) (w h p0x p0y : Int) (src : Int → Int → Int) (fx fy : ℚ)
+    (hx0 : 0 ≤ fx) (hx1 : fx ≤ 1) (hy0 : 0 ≤ fy) (hy1 : fy ≤ 1) (lo hi : Int) (hlo : 0 ≤ lo) (hlh : lo ≤ hi) (hhi : hi ≤ 65535)
+    (hb : ∀ t ∈ bilinearTaps (K := RVal R) w h p0x p0y ⟨fx⟩ ⟨fy⟩, lo ≤ src t.x t.y ∧ src t.x t.y ≤ hi) :
+    lo ≤ cround R (accR R src (bilinearTaps (K := RVal R) w h p0x p0y ⟨fx⟩ ⟨fy⟩)).v
+    ∧ cround R (accR R src (bilinearTaps (K := RVal R) w h p0x p0y ⟨fx⟩ ⟨fy⟩)).v ≤ hi := by
+  obtain ⟨hlen, hw0, hW1, hW2⟩ := weights_ok R he w h p0x p0y fx fy hx0 hx1 hy0 hy1
+  generalize bilinearTaps (K := RVal R) w h p0x p0y ⟨fx⟩ ⟨fy⟩ = taps at *
+  have hps : ∀ p ∈ taps.map (fun t => (src t.x t.y : ℚ)), (lo : ℚ) ≤ p ∧ p ≤ (hi : ℚ) := by
+    intro p hp
+    obtain ⟨t, ht, rfl⟩ := List.mem_map.mp hp
+    have := hb t ht
+    exact ⟨by exact_mod_cast this.1, by exact_mod_cast this.2⟩
+  have key := acc_between_tight R he (taps.map (fun t => (src t.x t.y : ℚ))) (taps.map (fun t => t.w.v)) lo hi (by simp)
+    (by simpa using hlen) hps (by exact_mod_cast hlo) (by exact_mod_cast hlh) (by exact_mod_cast hhi) hw0 hW1 hW2
+  rw [← accR_eq_ip] at key
+  exact cround_between R he _ lo hi hlo hhi key.1 key.2
+
+/-- the same with `mn` / `mx` the smallest / largest pixel value among the taps: result ∈ [min, max] of the pixels read -/
+theorem C17_float_bilinear_rounded_range (R : FloatSpec) (he : R.eps ≤ 1 / 2 ^ 24) (w h p0x p0y : Int) (src : Int → Int → Int) (fx fy : ℚ)
+    (hx0 : 0 ≤ fx) (hx1 : fx ≤ 1) (hy0 : 0 ≤ fy) (hy1 : fy ≤ 1) (mn mx : Int) (hmn : 0 ≤ mn) (hmx : mx ≤ 65535)
+    (hmin : ∀ t ∈ bilinearTaps (K := RVal R) w h p0x p0y ⟨fx⟩ ⟨fy⟩, mn ≤ src t.x t.y)
+    (hmax : ∀ t ∈ bilinearTaps (K := RVal R) w h p0x p0y ⟨fx⟩ ⟨fy⟩, src t.x t.y ≤ mx)
+    (hne : bilinearTaps (K := RVal R) w h p0x p0y ⟨fx⟩ ⟨fy⟩ ≠ []) :
+    mn ≤ cround R (accR R src (bilinearTaps (K := RVal R) w h p0x p0y ⟨fx⟩ ⟨fy⟩)).v
+    ∧ cround R (accR R src (bilinearTaps (K := RVal R) w h p0x p0y ⟨fx⟩ ⟨fy⟩)).v ≤ mx := by
+  obtain ⟨t, ht⟩ := List.exists_mem_of_ne_nil _ hne
+  have hle : mn ≤ mx := le_trans (hmin t ht) (hmax t ht)
+  exact C17_float_bilinear_rounded_between R he w h p0x p0y src fx fy hx0 hx1 hy0 hy1 mn mx hmn hle hmx
+    (fun t ht => ⟨hmin t ht, hmax t ht⟩)
+
+/-- the pre-fix witness input under the rounding cast (genuine binary32 rounding, kernel-evaluated): 254.99998 + 0.5 rounds to
+    255.5 (ties to even at this magnitude), truncated to 255 = the constant -/
+theorem C17_float_rounded_witness : cround FloatSpec.binary32 (16711679 / 65536) = 255 := by decide +kernel
 
 /-- a single tap of weight 1 (the four corner cases): the pixel comes out exactly -/
 theorem C17_float_single_tap_exact (R : FloatSpec) (src : Int → Int → Int) (x y : Int) (hb : |((src x y : ℤ) : ℚ)| ≤ R.big) :
